@@ -411,6 +411,10 @@ class Sym:
             if self.sq_of is not None:
                 return self
             return Sym(z3.If(self.re >= 0, self.re, -self.re))
+        if St.mode == "REAL" and not conc(self.im):
+            im_s = z3.simplify(self.im, som=True)
+            if z3.is_rational_value(im_s) and im_s.numerator_as_long() == 0:
+                return abs(Sym(self.re))
         return self.abs2().sqrt()
 
     # numpy object-loop method names
@@ -840,6 +844,12 @@ class SA(numpy.ndarray):
 
     def __array_finalize__(self, obj):
         pass
+
+    def __array_wrap__(self, out_arr, context=None, return_scalar=False):
+        # reductions to 0-d give the element itself (as NumPy does for plain ndarrays)
+        if out_arr.ndim == 0:
+            return out_arr[()]
+        return numpy.ndarray.__array_wrap__(self, out_arr, context, return_scalar)
 
     def astype(self, dtype, *a, **k):
         dt = _dt(dtype)
